@@ -58,6 +58,7 @@ type ringCase struct {
 	ZoneAware bool                 `json:"zone_aware"`
 	TimeoutS  int64                `json:"timeout_s"`
 	NowUnix   int64                `json:"now_unix"`
+	OffsetMs  int64                `json:"query_offset_ms"` // the lookups happen at now_unix + this many milliseconds
 }
 
 func (rc ringCase) sig() string {
@@ -67,7 +68,7 @@ func (rc ringCase) sig() string {
 	}
 	sort.Strings(ids)
 	var b strings.Builder
-	fmt.Fprintf(&b, "rf%d z%v|", rc.RF, rc.ZoneAware)
+	fmt.Fprintf(&b, "rf%d z%v +%dms|", rc.RF, rc.ZoneAware, rc.OffsetMs)
 	for _, id := range ids {
 		in := rc.Insts[id]
 		fmt.Fprintf(&b, "%s/%s/%d/%d/%v;", id, in.Zone, in.State, rc.NowUnix-in.Heartbeat, in.Tokens)
@@ -223,6 +224,7 @@ func runRingCase(t *testing.T, run *vt.Run, c vt.CaseID, rng *rand.Rand, rc ring
 			metaRing = r
 			defer stop()
 		}
+		T = T.Add(time.Duration(rc.OffsetMs) * time.Millisecond)
 		time.Sleep(time.Until(T))
 		synctest.Wait()
 		if !time.Now().Equal(T) {
@@ -238,7 +240,7 @@ func runRingCase(t *testing.T, run *vt.Run, c vt.CaseID, rng *rand.Rand, rc ring
 		for _, key := range keys {
 			for _, op := range ops {
 				walked := spec.Walk(rc.Insts, key, rc.RF, rc.ZoneAware, op.spec)
-				healthy, maxErr, fails := spec.Quorum(rc.Insts, walked, rc.RF, op.spec, rc.NowUnix, rc.TimeoutS)
+				healthy, maxErr, fails := spec.QuorumAt(rc.Insts, walked, rc.RF, op.spec, rc.NowUnix*1000+rc.OffsetMs, rc.TimeoutS*1000)
 				wantIDs := rk.Sorted(healthy)
 				for ri, l := range rings {
 					var rs ring.ReplicationSet
@@ -483,7 +485,7 @@ func TestC01(t *testing.T) {
 		}
 		timeoutS := int64(60)
 		decorate(rng, insts, zoneSet(rng, za), timeoutS, now, rng.IntN(2) == 0)
-		rc := ringCase{Insts: insts, RF: rf, ZoneAware: za, TimeoutS: timeoutS, NowUnix: now}
+		rc := ringCase{Insts: insts, RF: rf, ZoneAware: za, TimeoutS: timeoutS, NowUnix: now, OffsetMs: []int64{0, 0, 500, 999, 1}[rng.IntN(5)]}
 		s.Enter(c, "crash/small")
 		nr := 1
 		if hasMaxTok(insts) {
@@ -525,7 +527,7 @@ func TestC01(t *testing.T) {
 		}
 		timeoutS := int64(1 + rng.IntN(120))
 		decorate(rng, insts, zoneSet(rng, za), timeoutS, now, rng.IntN(2) == 0)
-		rc := ringCase{Insts: insts, RF: rf, ZoneAware: za, TimeoutS: timeoutS, NowUnix: now}
+		rc := ringCase{Insts: insts, RF: rf, ZoneAware: za, TimeoutS: timeoutS, NowUnix: now, OffsetMs: []int64{0, 0, 500, 999, 1}[rng.IntN(5)]}
 		s.Enter(c, "crash/rand")
 		nr := 1
 		if hasMaxTok(insts) {
